@@ -108,7 +108,10 @@ pub fn run_ops_opt(lines: &[String], store: bool) -> Report {
                 nontriv = false;
                 in_case = true;
                 for a in areas.iter_mut() {
-                    a.reset_case();
+                    if let Err(m) = catch(|| a.reset_case()) {
+                        let mut cx = Ctx { rep: &mut rep, case, line: ln, nontriv: &mut nontriv };
+                        cx.fail("ANY", format!("dropping the objects of the previous case panicked: {}", m));
+                    }
                 }
                 format!("case {}", n)
             }
@@ -123,10 +126,24 @@ pub fn run_ops_opt(lines: &[String], store: bool) -> Report {
             _ => {
                 let mut out = None;
                 for a in areas.iter_mut() {
-                    let mut cx = Ctx { rep: &mut rep, case, line: ln, nontriv: &mut nontriv };
-                    if let Some(r) = a.step(&ws, &mut cx) {
-                        out = Some(r);
-                        break;
+                    // an area catches the panics the crate is allowed to raise; anything that still escapes (the crate
+                    // panicking where no panic is specified, or an answer the harness cannot digest) is reported, not fatal
+                    let r = {
+                        let mut cx = Ctx { rep: &mut rep, case, line: ln, nontriv: &mut nontriv };
+                        catch(|| a.step(&ws, &mut cx))
+                    };
+                    match r {
+                        Ok(Some(r)) => {
+                            out = Some(r);
+                            break;
+                        }
+                        Ok(None) => {}
+                        Err(m) => {
+                            let mut cx = Ctx { rep: &mut rep, case, line: ln, nontriv: &mut nontriv };
+                            cx.fail("ANY", format!("`{}` panicked where no panic is specified: {}", line.trim(), m));
+                            out = Some("uncaught-panic".to_string());
+                            break;
+                        }
                     }
                 }
                 out.unwrap_or_else(|| "bad-op".to_string())
